@@ -38,8 +38,22 @@ def case_strategy(draw):
     return case
 
 
+@st.composite
+def close_candidates_case(draw):
+    """Caller-labelled instances in which one instance overlaps two instances of the other side with equal or
+    nearly equal scores (exchanging the roles turns 'two candidates of one reference' into 'one prediction wanted by
+    two references')."""
+    pred, ref = draw(gen.tie_instance_pair())
+    if draw(st.booleans()):
+        pred, ref = ref, pred
+    mm = draw(st.sampled_from(["IOU", "DSC"]))
+    return {"pred": pred.tolist(), "ref": ref.tolist(), "dtype": draw(st.sampled_from(["uint8", "uint16"])), "input": "UNMATCHED_INSTANCE", "backend": None,
+            "matcher": {"kind": "naive", "metric": mm, "thr": {"v": draw(st.sampled_from([0.0, 0.25, 0.3] if mm == "IOU" else [0.0, 0.4, 0.45]))}, "m2o": False},
+            "decision": None, "layout": "C", "primes": []}
+
+
 def searches(tier):
-    return [("exchange", case_strategy(), BUDGET[tier])]
+    return [("exchange", case_strategy(), BUDGET[tier]), ("close_candidates", close_candidates_case(), max(20, BUDGET[tier] // 6))]
 
 
 def enumerations(tier):
